@@ -65,9 +65,33 @@ def tsmap(npoints, rng):
     return out
 
 
-def class_len(cls, rng):
+# Record layouts (QLogFile!Layouts), numbered order*12 + addr*3 + tsf for the harness; -1 is the bare
+# record {"T":..} that fits into MINLEN bytes.  LAY_BOUND: bytes a line of that order needs at most.
+ORDERS = ["T", "IP", "long130", "long260", "long1100", "last"]
+ADDRS = ["v4", "v6s", "v6f", "v6z"]
+TSFORMS = ["utc", "off", "nsoff"]
+LAY_BOUND = [150, 150, 285, 415, 1255, 120]
+
+
+def lay_code(lay):
+    return ORDERS.index(lay["order"]) * 12 + ADDRS.index(lay["addr"]) * 3 + TSFORMS.index(lay["tsf"])
+
+
+def lay_bound(code):
+    return MINLEN if code < 0 else LAY_BOUND[code // 12]
+
+
+def any_layout(ln, rng):
+    """Seeded layout for a line of ln bytes whose layout the spec leaves open ("any")."""
+    orders = [o for o in range(6) if LAY_BOUND[o] <= ln]
+    if not orders or rng.random() < 0.15:
+        return -1
+    return rng.choice(orders) * 12 + rng.randrange(12)
+
+
+def class_len(cls, rng, floor=MINLEN):
     if cls == "t":
-        return rng.choice([MINLEN, MINLEN + 1, rng.randint(MINLEN, 400)])
+        return rng.choice([floor, floor + 1, rng.randint(floor, floor + 336)])
     if cls == "h":
         return rng.choice([MAXENTRY // 2 - 1, MAXENTRY // 2, rng.randint(7800, 8600)])
     return rng.choice([MAXENTRY - 1, MAXENTRY - 1, MAXENTRY - 2, rng.randint(16000, MAXENTRY - 1)])
@@ -79,7 +103,17 @@ def walk_case(cid, vec, seed):
     n = vec["n"]
     files = []
     for f in vec["files"]:
-        files.append({"ts": [ln["ts"] for ln in f], "len": [class_len(ln["len"], rng) for ln in f]})
+        lens, lays = [], []
+        for ln in f:
+            if ln["lay"]["order"] == "any":
+                l = class_len(ln["len"], rng)
+                lays.append(any_layout(l, rng))
+            else:
+                code = lay_code(ln["lay"])
+                l = class_len(ln["len"], rng, lay_bound(code))
+                lays.append(code)
+            lens.append(l)
+        files.append({"ts": [ln["ts"] for ln in f], "len": lens, "lay": lays})
     return {"id": cid, "level": vec["level"], "mode": "walk", "files": files, "ops": [],
             "tsmap": tsmap(2 * n + 3, rng), "seed": rng.randint(1, 1 << 30)}
 
@@ -167,6 +201,32 @@ def off_class(d):
     return "0" if d == 0 else "1" if d == 1 else "2+"
 
 
+def ol_class(d):
+    return "<-1" if d < -1 else "-1" if d == -1 else "0" if d == 0 else "1" if d == 1 else ">1"
+
+
+def reinit_distance(c, L, rng):
+    """How far into the old buffer the line X (L bytes) must end for trigger class c["trig"] and
+    start class c["ol"]; None if no such distance exists."""
+    if c["trig"] in ("0", "1"):
+        r0 = int(c["trig"])
+    elif c["ol"] == "<-1":
+        r0 = L - 2 if rng.random() < 0.5 else rng.randint(2, L - 2)
+    elif c["ol"] == ">1":
+        r0 = L + 2 if rng.random() < 0.5 else rng.randint(L + 2, MAXENTRY - 1) if L + 2 <= MAXENTRY - 1 else -1
+    else:
+        r0 = L + int(c["ol"])
+    if not 0 <= r0 <= MAXENTRY - 1 or ol_class(r0 - L) != c["ol"] or (r0 >= 2) != (c["trig"] == "more"):
+        return None
+    return r0
+
+
+def read_class_unrealisable(c):
+    """Scaled classes that need a line of at most 2 bytes: a re-init triggered on or next to the old
+    buffer start whose line nevertheless begins at most one byte before that start."""
+    return c["kind"] == "reinit" and c["trig"] in ("0", "1") and c["ol"] != "<-1"
+
+
 def solve_read_class(c, rng):
     """Content lengths (oldest line first) of a file whose backward read after SeekStart passes
     through alignment class c.  None if the class needs a line shorter than MINLEN bytes."""
@@ -182,7 +242,9 @@ def solve_read_class(c, rng):
         if c["kind"] == "keep":
             return pre + [L] + fill(rng.randint(MINLEN + 1, 40000), rng)   # file below the buffer size
         # re-initialisation that lands on the file start: old buffer start b0 = p - r0 > 0
-        r0 = {"0": 0, "1": 1, "mid": 5000, "top": MAXENTRY - 1}[c["trig"]]
+        r0 = reinit_distance(c, L, rng)
+        if r0 is None:
+            return None
         if p - r0 <= 0:
             if not pre:
                 return None
@@ -195,7 +257,9 @@ def solve_read_class(c, rng):
         # second buffer: the first one starts at b0 = Size - 1 - BufSize; X ends at p = b0 + r0 and is
         # the first line end below b0 + MaxEntry (the line W after it is long enough); the new buffer
         # starts at p - BufSize, delta bytes after the newline that ends the head
-        r0 = {"0": 0, "1": 1, "mid": 5000, "top": MAXENTRY - 1}[c["trig"]]
+        r0 = reinit_distance(c, L, rng)
+        if r0 is None:
+            return None
         lw = rng.randint(max(MINLEN, MAXENTRY - r0 - 1), MAXENTRY - 1)
         return head + fill(BUFSIZE - delta - L - 1, rng) + [L, lw] + fill(BUFSIZE - r0 - lw - 1, rng)
     # buffer start bs > 0 = Size - 1 - BufSize (the first buffer of the backward read)
@@ -256,7 +320,8 @@ def read_class(ends, endset, p, bn, b0, bs):
     kind = "nil" if bn else ("reinit" if p - b0 < MAXENTRY and b0 != 0 else "keep")
     t0 = p - b0
     return {"kind": kind,
-            "trig": "-" if kind != "reinit" else "0" if t0 == 0 else "1" if t0 == 1 else "top" if t0 == MAXENTRY - 1 else "mid",
+            "trig": "-" if kind != "reinit" else "0" if t0 == 0 else "1" if t0 == 1 else "more",
+            "ol": "-" if kind != "reinit" else ol_class(a - b0),
             "rel": "-" if kind != "keep" or bs == 0 else "=" if p - bs == MAXENTRY else ">",
             "len": len_class(p - a),
             "lf": ("bof" if a == 0 else "in") if bs == 0 else off_class(a - 1 - bs),
@@ -439,7 +504,8 @@ def aligned_case(cid, desc):
         if 1 <= t <= grid_max:
             ops.append([1, t])
             ops.append([2, rng.choice([1, 2, 3]) if n > 8 else -1, 1])
-    return {"id": cid, "level": "file", "mode": "ops", "files": [{"ts": [2 * (g + 1) for g in range(n)], "len": lens}],
+    return {"id": cid, "level": "file", "mode": "ops",
+            "files": [{"ts": [2 * (g + 1) for g in range(n)], "len": lens, "lay": [any_layout(l, rng) for l in lens]}],
             "ops": ops, "tsmap": tsmap(grid_max + 2, rng), "seed": 0}
 
 
@@ -458,7 +524,8 @@ def ops_case(cid, desc):
         parts = [(0, k), (k, n)]
     else:
         parts = [(0, n)]
-    files = [{"ts": [2 * (g + 1) for g in range(a, b)], "len": lens[a:b]} for a, b in parts]
+    lays = [any_layout(l, rng) for l in lens]
+    files = [{"ts": [2 * (g + 1) for g in range(a, b)], "len": lens[a:b], "lay": lays[a:b]} for a, b in parts]
     quick = desc["tier"] == "quick"
 
     # --- targets ---------------------------------------------------------------
@@ -889,7 +956,8 @@ def run_binding(ctx, rng, tier, res, edge_vecs, layouts, mc_futs):
                 d["split"] = special[i][1]
         descs.append(d)
     # ---- alignment classes of the scaled universe, each realised by a solved real-size file
-    rc_want = {ckey(c) for k in ("gen", "cls") for v in res[k]["vectors"] for c in v["rc"]}
+    rc_all = {ckey(c) for k in ("gen", "cls") for v in res[k]["vectors"] for c in v["rc"]}
+    rc_want = {k for k in rc_all if not read_class_unrealisable(json.loads(k))}
     pc_want = {ckey(c) for v in res["gen"]["vectors"] for c in v["pc"]}
     arng = random.Random(ctx.seed * 104729 + 7)
     rc_unsolved = []
@@ -988,7 +1056,7 @@ def run_binding(ctx, rng, tier, res, edge_vecs, layouts, mc_futs):
                                    "edge": r, "admissible": want},
                              "%s-level %s(%s) from cursor %s on files with %s lines: observed res=%s line=%s cursor->%s %s; spec admits %s" % (
                                  c["level"], r["act"], r["arg"], r["src"], [len(f["ts"]) for f in c["files"]],
-                                 r["res"], r["line"], r["dst"], r.get("detail", ""),
+                                 r["res"], r["line"], r["dst"], r.get("detail", "")[:160],
                                  [(e[3], e[4], e[5]) for e in want]))
 
     # ---- A2 / B verdicts
@@ -1129,7 +1197,7 @@ def run_binding(ctx, rng, tier, res, edge_vecs, layouts, mc_futs):
         "op_calls": calls_ops, "op_seeks": seeks_ops,
         "file_bytes_min_median_max": [sizes[0], sizes[len(sizes) // 2], sizes[-1]],
         "files_above_buffer": sum(1 for s in sizes if s > BUFSIZE),
-        "read_alignment_classes": {"in_scaled_universe": len(rc_want), "hit_by_real_reads": len(rc_want & rc_hit),
+        "read_alignment_classes": {"in_scaled_universe": len(rc_all), "impossible_with_lines_of_64_bytes": len(rc_all - rc_want), "hit_by_real_reads": len(rc_want & rc_hit),
                                    "other_classes_seen_at_real_scale": len(rc_hit - rc_want)},
         "probe_alignment_classes": {"in_scaled_universe": len(pc_want), "impossible_with_lines_of_64_bytes": len(pc_want - pc_real),
                                     "hit_by_scripted_seeks": len(pc_real & pc_hit),
